@@ -90,9 +90,10 @@ append_derivation(CPPType *base, CPPVisibility vis, bool is_virtual) {
       def = base->as_typedef_type();
     }
 
-    if (vis == V_unknown && base->as_extension_type() != nullptr) {
-      // Default visibility.
-      if (base->as_extension_type()->_type == T_class) {
+    if (vis == V_unknown) {
+      // Default visibility: this is determined by the class-key of the
+      // deriving class, not by that of the base class.
+      if (_type == T_class) {
         vis = V_private;
       } else {
         vis = V_public;
